@@ -19,13 +19,18 @@ ERR = re.compile(r"^\(err (\w+) (\d+):(\d+)\)")
 
 def explore(ctx):
     h = common.hexs
-    reps = 3 if ctx.quick else 60
+    reps = 8 if ctx.quick else 120
     cases = []
     dist = {}
-    for rep in range(reps):
-        for kind in gen.LOC_FAULTS:
-            for context in gen.LOC_CONTEXTS:
-                forms, idx, marker = gen.located_fault_program(ctx.rng, kind, context)
+    combos = [(kind, context, None, None) for rep in range(reps) for kind in gen.LOC_FAULTS for context in gen.LOC_CONTEXTS]
+    # every derived-form template x every fault whose exact position is known (the offending token may be the whole
+    # expansion of a macro use, its last operand, a clause body ...)
+    combos += [(kind, "derived", t, fl) for kind in ("unbound-ref", "non-procedure") for t in gen.LOC_DERIVED
+               for fl in gen.LOC_FAULTS[kind]]
+    for kind, context, template, fault in combos:
+        if True:
+            if True:
+                forms, idx, marker = gen.located_fault_program(ctx.rng, kind, context, template, fault)
                 text, extents, ends = gen.layout_program(ctx.rng, forms)
                 lines = ["NEW 0 std", "EVAL 0 " + h(text),
                          "FILE %s %s %s" % (h("prog"), h("main.scm"), h("(import (scheme base) (scheme write))\n" + text)),
@@ -37,7 +42,7 @@ def explore(ctx):
                 dist[kind + "/" + context] = dist.get(kind + "/" + context, 0) + 1
     # syntax errors that carry a location: at or before the offending token
     syn = []
-    for k in range(40 if ctx.quick else 600):
+    for k in range(120 if ctx.quick else 1500):
         g = gen.Gen(ctx.rng, ticks=False)
         forms, _ = g.program(ctx.rng.randint(1, 4), 2)
         bad = ctx.rng.choice([")", "#z", "\"unterminated", "(a . b . c)", "#\\", "1/0", "(define 5 1)"])
